@@ -13,7 +13,35 @@ class Loud(object):
         return 'Loud(%s)' % self.v
 
 
+def host_context_processor(which):
+    """The host itself asks (SimpleContextProcessor) for a resource to be copied into every render
+    context; host middlewares also wrap the embedded meta routes, so the JSON view serialises it."""
+    from clastic import Application, Response
+    from clastic.meta import MetaApplication
+    from clastic.middleware import SimpleContextProcessor
+    from werkzeug.test import Client
+    problems = []
+    if which == 'ctxproc_secret':
+        res, name = {'db_secret': 'S3CR3T-CTX', 'visible_name': 'VISIBLE-VALUE'}, 'db_secret'
+    else:
+        res, name = {'handle': object(), 'visible_name': 'VISIBLE-VALUE'}, 'handle'
+    app = Application([('/', lambda: Response('x')), ('/_meta/', MetaApplication())], resources=res,
+                      middlewares=[SimpleContextProcessor(name)])
+    for path in ('/_meta/', '/_meta/json/'):
+        r = Client(app, Response).get(path)
+        if r.status_code != 200:
+            problems.append('%s with host SimpleContextProcessor(%r): status %s' % (path, name, r.status_code))
+        elif 'S3CR3T-CTX' in r.get_data(as_text=True):
+            problems.append('%s with host SimpleContextProcessor(%r): value of the resource is disclosed' % (path, name))
+    return problems
+
+
 def run(case):
+    if case.get('scenarios'):
+        problems = []
+        for which in case['scenarios']:
+            problems += host_context_processor(which)
+        return {'fails': bool(problems), 'why': '; '.join(problems[:5])}
     from clastic import Application, Response
     from clastic.meta import MetaApplication
     from clastic.middleware.cookie import SignedCookieMiddleware
@@ -41,7 +69,13 @@ def run(case):
 
         def request(self, next):
             return next(vp_a=1, vp_b=2)
-    app = Application([('/', lambda: Response('x')), ('/_meta/', MetaApplication())], resources=res, middlewares=[mw, ViewProvides()])
+    import re as _re
+
+    def odd_defaults(sentinel=object(), rx=_re.compile('a+'), factory=dict, n=3, s='S3CR3T-not-a-resource'):
+        # defaults nobody provides, of kinds a JSON encoder does not know
+        return Response('x')
+    app = Application([('/', lambda: Response('x')), ('/odd', odd_defaults), ('/_meta/', MetaApplication())],
+                      resources=res, middlewares=[mw, ViewProvides()])
     outer = Application([('/deep/', app)])
     problems = []
     for a, prefix in ((app, ''), (outer, '/deep')):
@@ -82,6 +116,10 @@ def run(case):
         problems.append('/_meta/ with a failing middleware section: status %s' % r.status_code)
     elif '[REDACTED]' not in body or 'VISIBLE-VALUE' not in body:
         problems.append('/_meta/ with a failing middleware section: the resources section vanished from the page')
+    # host middlewares also wrap the embedded meta routes: a host context processor copies resources into every
+    # render context, which the JSON view must not serialise (F22)
+    for which in ('ctxproc_secret', 'ctxproc_unserialisable'):
+        problems += host_context_processor(which)
     return {'fails': bool(problems), 'why': '; '.join(problems[:5])}
 
 
